@@ -275,8 +275,17 @@ def gen_safegcd(tier, rng):
                 sa, sb = rng.choice([1, -1]), rng.choice([1, -1])
                 return [(sa * a) & WMAX, (sb * b) & WMAX]
             t = row() + row()
-            f, g, d, e = (unsat_value(rng, u) for _ in range(4))
-            mod = unsat_value(rng, u) | 1
+            # operands inside the documented size limit of `fg` / `de` (|x| < 2^(62u - 64): what `divsteps` keeps them in;
+            # beyond it the unsaturated arithmetic wraps and debug builds assert) — two's complement over 62u bits
+            def inside():
+                lim = 62 * u - 66
+                mag = rng.choice([0, 1, (1 << lim) - 1, rng.getrandbits(rng.randrange(1, lim + 1))])
+                return (mag if rng.randrange(2) else -mag) % (1 << (62 * u))
+            pack = lambda v: sum(((v >> (62 * i)) & ((1 << 62) - 1)) << (64 * i) for i in range(u))
+            modv = rng.choice([(1 << (62 * u - 66)) - 1, rng.getrandbits(rng.randrange(2, 62 * u - 65))]) | 1
+            f, g = pack(inside()), pack(inside())
+            d, e = pack(rng.randrange(modv)), pack(rng.randrange(modv))      # d, e are residues of the modulus
+            mod = pack(modv)
             inv = rng.getrandbits(62)
             yield f"c01.hook.fgde {u} {hx(f)} {hx(g)} {hx(d)} {hx(e)} {hx(mod)} {hx(inv)} " + " ".join(hx(x) for x in t)
     # divsteps on unsaturated operands (f0 odd, non-negative operands as the callers pass them)
